@@ -669,6 +669,102 @@ B('C20', 'descending-other-spelling', OR,
   "        # Check iteration index; if not converged, raise error",
   "        # Check the iteration index; raise an error if not converged")
 
+# ---------------------------------------------------------------- rules added after the adversarial rounds
+PMD = 'dassh/pin_model.py'
+B('C13', 'norm-method-form', PMD,
+  "            while np.max(np.abs(Tf1 - Tf2)) > atol:",
+  "            while np.abs(Tf1 - Tf2).max() > atol:")
+M('C13', 'norm-signed', PMD,
+  "        while np.max(np.abs(T_in1 - T_in2)) > atol:",
+  "        while np.max(T_in1 - T_in2) > atol:", 'C13.R2')
+M('C13', 'foreign-shell-material', PMD,
+  "                k_i = self._fuel_cond(i, T_in1)",
+  "                k_i = self._fuel_cond(i - 1, T_in1)", 'C13.R5')
+B('C11', 'innermost-test-other-form', RR,
+  "            if i == 0:  # inner-most duct, inner htc is asm interior",
+  "            if i < 1:  # inner-most duct, inner htc is asm interior")
+M('C11', 'bypass-reads-wrong-face', RR,
+  "                      * (self.temp['duct_surf'][i + 1, 0]\n"
+  "                         - self.temp['coolant_byp'][i]))",
+  "                      * (self.temp['duct_surf'][i + 1, 1]\n"
+  "                         - self.temp['coolant_byp'][i]))", 'C11.R6')
+M('C08', 'duct-corner-area-one-face', RR,
+  "        duct['area'][i][1] = (duct['thickness'][i]\n"
+  "                              * (d['wcorner'][i][1]\n"
+  "                                 + d['wcorner'][i][0]))",
+  "        duct['area'][i][1] = (duct['thickness'][i]\n"
+  "                              * (2 * d['wcorner'][i][1]))", 'C08.R4')
+M('C08', 'wire-area-interior', RR,
+  "    sc_ww['area'][0] -= 0.125 * np.pi * Dw**2 / cos_theta",
+  "    sc_ww['area'][0] -= 0.25 * np.pi * Dw**2 / cos_theta", 'C08.R4')
+M('C08', 'bypass-area-index', RR,
+  "            bypass['area'][i, 1] = (d['bypass'][i]\n"
+  "                                    * (d['wcorner'][i + 1, 0]\n"
+  "                                       + d['wcorner'][i, 1]))",
+  "            bypass['area'][i, 1] = (d['bypass'][i]\n"
+  "                                    * (d['wcorner'][i, 0]\n"
+  "                                       + d['wcorner'][i, 1]))", 'C08.R4')
+B('C08', 'corner-length-regrouped', RR,
+  "    d['wcorner'][0, 1] = d['wcorner'][0, 0] + d['wall'][0] / _sqrt3",
+  "    d['wcorner'][0, 1] = d['wall'][0] / _sqrt3 + d['wcorner'][0, 0]")
+M('C09', 'rodded-corner-inner-face', CO,
+  "                    dwc = asm_with_mesh_params.rodded.d['wcorner'][-1, -1]",
+  "                    dwc = asm_with_mesh_params.rodded.d['wcorner'][-1, 0]",
+  'C09.R4')
+B('C09', 'hex-perimeter-other-form', CO,
+  "        hex_perim = self.duct_oftf * 6 / np.sqrt(3)\n"
+  "        for a in range(self.n_asm):\n"
+  "            xtmp = self._asm_sc_xbnds[a]\n"
+  "            xtmp = xtmp[self._asm_sc_adj[a] > 0]\n"
+  "            for i in range(len(xtmp) - 1):\n"
+  "                sci = self._asm_sc_adj[a][i]",
+  "        hex_perim = 6 * self.duct_oftf / np.sqrt(3)\n"
+  "        for a in range(self.n_asm):\n"
+  "            xtmp = self._asm_sc_xbnds[a]\n"
+  "            xtmp = xtmp[self._asm_sc_adj[a] > 0]\n"
+  "            for i in range(len(xtmp) - 1):\n"
+  "                sci = self._asm_sc_adj[a][i]")
+M('C06', 'flag-initialised-once', RX,
+  "            use_conv_approx = False\n            if self._options['conv_approx']:",
+  "            if ai == 0:\n                use_conv_approx = False\n"
+  "            if self._options['conv_approx']:", 'C06.R3')
+M('C16', 'module-level-cache', PW,
+  "def _from_file(fpath):",
+  "_FILE_CACHE = {}\n\n\ndef _remember(fpath, v):\n    _FILE_CACHE[fpath] = v\n\n\n"
+  "def _from_file(fpath):", 'C16.R4')
+M('C19', 'ids-not-reordered', HS,
+  "            asm_ids[k] = [asm_ids[k][i] for i in order]\n", "", 'C19.R4')
+B('C19', 'gather-in-one-statement', HS,
+  "            peak_temps[k] = np.vstack(peak_temps[k])\n"
+  "            peak_temps[k] = peak_temps[k][order]",
+  "            peak_temps[k] = np.vstack(peak_temps[k])[order]")
+M('C20', 'limit-of-max-member', OR,
+  "                        m_new[:] = np.min(m_lim_grp)",
+  "                        m_new[:] = np.max(m_lim_grp)", 'C20.R4')
+M('C12', 'ctd-grid-with-uctd-exponent',
+  'dassh/correlations/flowsplit_ctd.py',
+  "        return _calc_bundle_plus_grid_flow_split(asm_obj, Cf)",
+  "        return _calc_bundle_plus_grid_flow_split(asm_obj, Cf, _lambda=7)",
+  'C12.R6')
+M('C14', 'first-grid-shortcut', RR,
+  "        n_grid = sum(1 for _z in self.corr_constants['grid']['z']\n"
+  "                     if z - dz < _z <= z)",
+  "        n_grid = sum(1 for _z in self.corr_constants['grid']['z'][1:]\n"
+  "                     if z - dz < _z <= z)", 'C14.R7')
+M('C10', 'mesh-perimeter-inner-face', RR,
+  "        x_bnds[-1] = 6 / np.sqrt(3) * self.duct_ftf[-1][1]",
+  "        x_bnds[-1] = 6 / np.sqrt(3) * self.duct_ftf[-1][0]", 'C10.R4')
+M('C03', 'scaling-only-without-norm', RX,
+  "        # Scale power again if user requested\n        if pscalar != 1.0:",
+  "        # Scale power again if user requested\n"
+  "        if pscalar != 1.0 and ptot_user is None:", 'C03.R4')
+M('C18', 'overlap-filter-abs', RI,
+  "    if len([v for v in rodded_regs if v != 0]) > 1:",
+  "    if len([v for v in rodded_regs if v > 1e-12]) > 1:", 'C18.R5')
+B('C18', 'mismatch-filter-abs', RI,
+  "    if len([v for v in rodded_regs if v != 0]) > 1:",
+  "    if len([v for v in rodded_regs if not v == 0]) > 1:")
+
 os.makedirs(os.path.join(HERE, 'selftest'), exist_ok=True)
 tot = 0
 for prop, entries in sorted(C.items()):
